@@ -19,4 +19,4 @@ one() {
   git -C /repo worktree remove --force $wt >/dev/null 2>&1
 }
 export -f one
-ls $root | xargs -P 5 -I{} bash -c "one {} $root/{}" | sort > $out
+ls $root | xargs -P ${MXP:-6} -I{} bash -c "one {} $root/{}" | sort > $out
